@@ -372,7 +372,7 @@ int main(int argc, char **argv) {
 
 	for (uint64_t i = start; i < start + count; i++) {
 		if (nowsec() - t0 > tlimit) break;
-		if (nviol >= max_viol) break;
+		if (nviol >= max_viol || st.violations >= 40) break; // enough evidence: stop the batch early
 		uint64_t seed = splitmix(base, i);
 		Plan p; gen(seed, p);
 		RunResult r = execute(E, p);
